@@ -146,7 +146,8 @@ def bounds(tier):
         'separators': SEPS_Q if q else SEPS_T,
         'preferences': PREFS,
         'entry_points': ['cssutils.css.PropertyValue(text)', "cssutils.parseString('a{p:' + text + '}')"],
-        'whole_sheet_round_trip': 'every case except numbers with >2 fraction digits, neighbours of doubled hashes and the #rrggbb alphabet product' if q else 'every case',
+        'sheet_entry_point': 'every case except numbers with >2 fraction digits' if q else 'every case',
+        'whole_sheet_round_trip': 'every case with the sheet entry point except neighbours of doubled hashes and the #rrggbb alphabet product' if q else 'every case',
     }
 
 
@@ -543,7 +544,7 @@ def _judge_fixpoint(case, acc, ser, prefs, out, path, stats, cache):
         out.append(V('C18.fixpoint', f'accessors-changed-by-round-trip|{"+".join(kinds)}', repr(acc), repr(acc2), prefs, path))
 
 
-def raw(case, stats=None, sheet_rt=True):
+def raw(case, stats=None, level=2):
     """all raw violations of one case (both entry points, every preference setting of the family, or only
     case['prefs'] if the case pins one)"""
     family = case['family']
@@ -573,7 +574,9 @@ def raw(case, stats=None, sheet_rt=True):
                     _judge_fixpoint(case, acc, ser, prefs, out, 'value', stats, cache)
             if stats is not None:
                 _coverage(stats, case, text, acc, sers)
-        # entry point 2: the same text as a declaration value in a sheet
+        # entry point 2: the same text as a declaration value in a sheet (level: 0 = skip, 1 = parse, 2 = and round trip)
+        if not level:
+            return out
         guard.pristine()
         try:
             sheet, pv2 = _parse_sheet(text)
@@ -594,7 +597,7 @@ def raw(case, stats=None, sheet_rt=True):
                 if stats is not None:
                     stats.counters['sheet-entry-differs'] += 1
             # the whole sheet round trip (default preferences)
-            if not sheet_rt or any(v.clause != 'C18.accessor' for v in out):
+            if level < 2 or any(v.clause != 'C18.accessor' for v in out):
                 return out
             if stats is not None:
                 stats.clauses['C18.fixpoint'] += 1
@@ -732,12 +735,11 @@ def essential(case, v):
     return '|'.join(ess)
 
 
-def evaluate(res, case, sheet_rt=True):
+def evaluate(res, case, sheet=2):
     res.evaluations += 1
     res.validated += 1
-    if sheet_rt:
-        res.counters['sheet-round-trips'] += 1
-    vs = raw(case, res, sheet_rt)
+    res.counters[('value-entry-only', 'sheet-entry', 'sheet-entry-and-round-trip')[sheet]] += 1
+    vs = raw(case, res, sheet)
     if not vs:
         return
     if any(v.path == 'value' for v in vs):
@@ -820,7 +822,7 @@ def _num_case(sign, i, f, unit):
     return {'family': 'number', 'comps': [['num', sign, i, f, unit]], 'seps': []}
 
 
-def _run_numbers(res, sign, i, fracs, units, rt_maxlen):
+def _run_numbers(res, sign, i, fracs, units, rt_maxlen, sheet_else):
     for f in fracs:
         if not i and not f:
             continue
@@ -828,7 +830,7 @@ def _run_numbers(res, sign, i, fracs, units, rt_maxlen):
             res.counters['number.skipped-over-15-significant-digits'] += 1
             continue
         for u in units:
-            evaluate(res, _num_case(sign, i, f, u), len(f) <= rt_maxlen)
+            evaluate(res, _num_case(sign, i, f, u), 2 if len(f) <= rt_maxlen else sheet_else)
 
 
 def _col_case(comp):
@@ -846,24 +848,25 @@ def run_shard(shard, tier, seed):
     guard.pristine()
     res = Result(seed)
     q = tier == 'quick'
-    rtmax = 2 if q else 6  # the whole-sheet round trip is run for numbers with at most this many fraction digits
+    rtmax = 2 if q else 6  # the sheet entry point and round trip is run for numbers with at most this many fraction digits
+    sheet_else = 0
     old = guard.signal.signal(guard.signal.SIGALRM, guard._alarm)
     try:
         kind = shard[0]
         if kind == 'num-short':
             _, sign, i, plen = shard
             fracs = [''] + [''.join(t) for n in range(1, plen) for t in itertools.product(DIGITS, repeat=n)]
-            _run_numbers(res, sign, i, fracs, UNITS, rtmax)
+            _run_numbers(res, sign, i, fracs, UNITS, rtmax, sheet_else)
             if i:
                 res.sample(_num_case(sign, i, '', 'px'))
         elif kind == 'num':
             _, sign, i, pre, L = shard
-            _run_numbers(res, sign, i, _fractions_with_prefix(pre, L), UNITS, rtmax)
+            _run_numbers(res, sign, i, _fractions_with_prefix(pre, L), UNITS, rtmax, sheet_else)
             res.sample(_num_case(sign, i, pre + '5', 'em'))
         elif kind == 'num56':
             _, sign, i, pre = shard
             fracs = [pre + ''.join(t) for n in (2, 3) for t in itertools.product(SPARSE, repeat=n)]
-            _run_numbers(res, sign, i, fracs, ['', 'px', '%'] if q else UNITS, rtmax)
+            _run_numbers(res, sign, i, fracs, ['', 'px', '%'] if q else UNITS, rtmax, sheet_else)
         elif kind == 'hash3':
             for c in HEXD:
                 for variant in {shard[1] + c, (shard[1] + c).upper()}:
@@ -880,11 +883,11 @@ def run_shard(shard, tier, seed):
                     k = HEXD.index(base[pos])
                     repl = [HEXD[(k + 1) % 16], HEXD[(k - 1) % 16]] if q else [x for x in HEXD if x != base[pos]]
                     for x in repl:
-                        evaluate(res, _col_case(['hash', '#' + base[:pos] + x + base[pos + 1:]]), not q)
+                        evaluate(res, _col_case(['hash', '#' + base[:pos] + x + base[pos + 1:]]), 1 if q else 2)
             res.sample(_col_case(['hash', '#' + shard[1][0] * 2 + shard[1][1] * 2 + '00']))
         elif kind == 'hash6':
             for t in itertools.product(HEX5, repeat=4):
-                evaluate(res, _col_case(['hash', '#' + shard[1] + ''.join(t)]), not q)
+                evaluate(res, _col_case(['hash', '#' + shard[1] + ''.join(t)]), 1 if q else 2)
         elif kind == 'keywords':
             names = sorted(set(RN.KEYWORDS) | set(cssutils.css.ColorValue.COLORS))
             for n in names:
